@@ -550,6 +550,31 @@ func init() {
 				}
 				add(c)
 			}
+			// one builder, two builds: a document of three conjunctions goes in before the first build, narrower documents
+			// after it; hinted retrievals on the LATER index must still reach the wide document through its last conjunction
+			for _, rebuild := range []int{1, 2} {
+				iv := func(f int, n int64) eConj { return eConj{{F: f, Inc: true, V: tvSlice("[]int", tvInt("int", n))}} }
+				c := rCase{Fields: []rField{{F: 0, Cont: "default"}, {F: 1, Cont: "default"}}, Rebuild: rebuild}
+				c.Docs = []eDoc{
+					{ID: 1, Cons: []eConj{iv(0, 1), iv(0, 2), {{F: 1, Inc: true, V: tvStr("x")}}}},
+					{ID: 2, Cons: []eConj{iv(0, 5), iv(0, 6)}},
+					{ID: 3, Cons: []eConj{iv(0, 3)}},
+					{ID: 4, Cons: []eConj{{{F: 1, Inc: true, V: tvStr("x")}}}},
+				}
+				for i, q := range [][]eAssign{{{F: 1, V: tvStr("x")}}, {{F: 0, V: tvInt("int", 2)}}, {{F: 0, V: tvInt("int", 6)}}, {{F: 0, V: tvInt("int", 3)}, {F: 1, V: tvStr("x")}}} {
+					for _, hs := range [][]int64{{1, 2}, {1}, {4, 1}, nil} {
+						c.Ops = append(c.Ops, rOp{S: 0, Op: "reset"})
+						if hs != nil {
+							c.Ops = append(c.Ops, rOp{S: 0, Op: "hint", Hint: hs})
+						}
+						c.Ops = append(c.Ops, rOp{S: 0, Op: []string{"retrieve", "docs"}[i%2], A: q}, rOp{S: 0, Op: "raw"})
+						if hs != nil { // ... and on a scanner created for the purpose
+							c.Ops = append(c.Ops, rOp{S: 1 + i, Op: "hint", Hint: hs}, rOp{S: 1 + i, Op: "docs", A: q}, rOp{S: 1 + i, Op: "raw"}, rOp{S: 1 + i, Op: "reset"})
+						}
+					}
+				}
+				add(c)
+			}
 			// a field read by the number-range parser whose expression value is a LIST of descriptions, stepped ones before
 			// and after step-less ones: every description enumerates with its own step
 			{
